@@ -350,8 +350,9 @@ def nth_lines(path, lo, hi):
 def run_property(pid, tier, seed, replay=None):
     t0 = time.time()
     spec, mod = load_spec(pid)
-    os.makedirs(os.path.join(VERIF, "evidence"), exist_ok=True)
-    rdir = os.path.join(VERIF, "replays", pid)
+    evdir = os.environ.get("VERIF_EVIDENCE_DIR") or os.path.join(VERIF, "evidence")
+    os.makedirs(evdir, exist_ok=True)
+    rdir = os.path.join(os.environ.get("VERIF_REPLAY_DIR") or os.path.join(VERIF, "replays"), pid)
     os.makedirs(rdir, exist_ok=True)
     broken = []          # list of (what, detail)  — broken ties / obligations
     notes = {}
@@ -462,7 +463,7 @@ def run_property(pid, tier, seed, replay=None):
     }
     ev = {"property_id": pid, "tier": tier, "seed": int(seed), "level": "proof", "coverage": cov,
           "assumptions": spec.get("assumptions", []), "wall_s": round(time.time() - t0, 2), "violations": violations}
-    json.dump(ev, open(os.path.join(VERIF, "evidence", pid + ".json"), "w"), indent=1)
+    json.dump(ev, open(os.path.join(evdir, pid + ".json"), "w"), indent=1)
     for l in lines:
         print(l)
     print(f"[{pid}] tier={tier} seed={seed} theorems={len(thms)} discharged={cov['discharged']} ops={corr['ops']} "
